@@ -8,8 +8,10 @@ import (
 	"path/filepath"
 	"sort"
 	"strings"
+	"sync"
 
 	"golang.org/x/tools/go/packages"
+	"golang.org/x/tools/go/types/typeutil"
 	"golang.org/x/tools/go/ssa"
 	"golang.org/x/tools/go/ssa/ssautil"
 )
@@ -34,6 +36,8 @@ type World struct {
 	all       []*Contract
 	stubs     map[*Contract]*ssa.Function
 	globals   map[*ssa.Global]int64
+	globTypes     typeutil.Map // types that occur in some package-level variable
+	globTypesOnce sync.Once
 	funcs     map[*ssa.Function]int64
 	funcByID  map[int64]*ssa.Function
 	typeTags  map[string]int64
